@@ -129,9 +129,13 @@ def doc_shape(ir, extra=None):
     docs = [p.get("doc") or "" for p in (ir.get("params") or {}).values()] if isinstance(ir, dict) else []
     if isinstance(extra, dict) and (extra.get("param_doc") or "").startswith(("Optional", "(Optional)")):
         return "optional-prose"  # the description of the very parameter the failure is about starts with the word
-    if any("\n" in d for d in docs):
-        return "multiline-doc"
-    return "colon-doc" if any(":" in d and not d.startswith("[") for d in docs) else ""
+    if isinstance(extra, dict) and "param_doc" in extra and not (extra.get("param_doc") or "").strip():
+        return "empty-doc"  # the parameter the failure is about has no description at all
+    base = "multiline-doc" if any("\n" in d for d in docs) else ("colon-doc" if any(":" in d and not d.startswith("[") for d in docs) else "")
+    if not (isinstance(extra, dict) and "param_doc" in extra) and docs and any(not d.strip() for d in docs):
+        # a failure that is not about one parameter (names, returns, interface description) on an interface with an undocumented one
+        return (base + "+" if base else "") + "undocumented-param"
+    return base
 
 
 def report(run_, prefix, fails, refuted_names=()):
